@@ -47,6 +47,10 @@ const MDB_SHARD_HEADER_TAG: [u8; 32] = [
 
 #[inline]
 pub fn current_timestamp() -> u64 {
+    #[cfg(xet_verif)]
+    if let Some(t) = utils::verif::clock() {
+        return t;
+    }
     // Get the seconds since the epoc as u64
     std::time::SystemTime::now()
         .duration_since(std::time::UNIX_EPOCH)
@@ -1212,6 +1216,12 @@ impl MDBShardInfo {
             .as_secs();
 
         // Copy over the stored information elsewhere
+        #[cfg(xet_verif)]
+        if let Some(t) = utils::verif::clock() {
+            out_footer.shard_creation_timestamp = t;
+            out_footer.shard_key_expiry = t + key_valid_for.as_secs();
+        }
+
         out_footer.materialized_bytes = materialized_bytes;
         out_footer.stored_bytes_on_disk = stored_bytes_on_disk;
         out_footer.stored_bytes = stored_bytes;
